@@ -73,6 +73,9 @@ func VerifyUnit(prog *Program, specs *Specs, fn *ssa.Function, ct *Contract, opt
 		x.maxPaths = opts.MaxPaths
 	}
 	x.assumeFalseAtExit = opts.ProbeExit
+	if opts.Tmode {
+		x.tmode = true
+	}
 	x.known = opts.Known
 	x.extraProp = opts.ExtraProp
 	st := &State{x: x, regs: map[ssa.Value]Val{}, cells: map[*Cell]Val{}, heap: map[string]Term{}, defers: map[int][]deferred{}, fresh: map[string]bool{}, loopSnap: map[string][]Term{}, lockSnapNames: map[string][]string{}, loopFrame: map[string][]string{}}
@@ -159,6 +162,7 @@ func VerifyUnit(prog *Program, specs *Specs, fn *ssa.Function, ct *Contract, opt
 type UnitOpts struct {
 	MaxPaths  int
 	ProbeExit bool
+	Tmode     bool // thread-modular mode for the whole unit
 	Known     []*KnownFinding
 	ExtraProp string // property whose sweep this unit belongs to: its safety obligations serve that property too
 }
